@@ -43,6 +43,11 @@ EXACT_PRESERVING = {'mpf_neg', 'mpf_abs', 'mpf_shift', 'mpf_pos', 'mpc_neg', 'mp
 # exact integer-part operation (its internal mpf_pos to `mag` bits IS the
 # operation, not a rounding of the result)
 EXACT_INTEGER_PART = {'mpf_round_int'}
+# helper -> (index of the precision argument, index of the mode argument, where its body is verified)
+OUTWARD_HELPERS = {
+    'mpf_outward': (2, 3, 'C14 rule C-R19: computes at prec + 20, multiplies by 1 +- 2**(10-wp) on the outward side and '
+                          'rounds with the given mode at the given precision'),
+}
 # helper -> (index of the precision argument, where the bound is verified)
 GUARD_BOUNDED = {
     'exact_nthroot': (2, 'C13 rule E-X1: returns None unless c**n == man, after `if k > prec: return None` with '
@@ -635,6 +640,13 @@ class KernelAnalysis(FlowAnalysis):
             if name == 'from_rational':
                 single = True
             return MPF(self.rounded(pv, self.ev_mode(re_, w), single))
+        if name in OUTWARD_HELPERS:
+            # kernel value moved outward and then rounded with (prec, mode) given by position; the helper's body
+            # is verified by the rule named in the table.  Zero / infinities / exact values pass through unchanged:
+            # they are bounds in either direction
+            pi_, mi_ = OUTWARD_HELPERS[name][:2]
+            if len(args) > max(pi_, mi_):
+                return MPF(self.rounded(self.ev(args[pi_], w), self.ev_mode(args[mi_], w)) | frozenset([S]))
         if name in GUARD_BOUNDED:
             # exact value whose bit length is bounded by a precision argument through a guard inside the
             # helper (verified structurally by the rule named in the table): as good as rounded to it, in any mode
